@@ -75,6 +75,7 @@ func NewEngine(modulePath string) *Engine {
 	registerCrypto(e)
 	registerKeccak(e)
 	registerSnapshot(e)
+	registerRace(e)
 	return e
 }
 
